@@ -11,9 +11,76 @@ import (
 
 // ---- C03: locked or unconfirmed accounts cannot complete a login or use protected routes
 
-type monC03 struct{}
+// monC03 keeps its own idea of "locked" and "confirmed": a lock ends only by
+// expiry or manual unlock, an account becomes confirmed only through its own
+// genuine token. Storage is an input only where it moves in the safe direction
+// (a later lock deadline, a re-started confirmation).
+type monC03 struct {
+	lockedUntil map[string]time.Time // stored-time coordinates (aged together with the store)
+	confirmed   map[string]bool
+}
 
-func (c *monC03) Init(m *Machine) {}
+func (c *monC03) Init(m *Machine) {
+	c.lockedUntil, c.confirmed = map[string]time.Time{}, map[string]bool{}
+	for pid, u := range m.W.Store.Snapshot().Users {
+		c.lockedUntil[pid], c.confirmed[pid] = u.Locked, u.Confirmed
+	}
+}
+
+// track folds one step into the model; called before the checks of that step use it
+// only for steps that cannot themselves be the login under judgement (see After).
+func (c *monC03) track(m *Machine, s *Step) {
+	op := s.Op
+	switch op.K {
+	case "advance":
+		d := time.Duration(op.N) * time.Second
+		for pid, t := range c.lockedUntil {
+			if !t.IsZero() {
+				c.lockedUntil[pid] = t.Add(-d)
+			}
+		}
+		return
+	case "unlock":
+		if ka := m.KB.acct(op.A % max(1, len(m.KB.Accts))); ka != nil {
+			c.lockedUntil[ka.PID] = s.Post.Users[ka.PID].Locked
+		}
+	case "reconfirm":
+		if ka := m.KB.acct(op.A % max(1, len(m.KB.Accts))); ka != nil && m.C.Cfg.Has("confirm") {
+			c.confirmed[ka.PID] = false
+		}
+	case "confirm":
+		for pid, pre := range s.Pre.Users {
+			if tokenMatches(s.Secret, pre.ConfirmSelector, pre.ConfirmVerifier) && s.Post.Users[pid].Confirmed {
+				c.confirmed[pid] = true
+			}
+		}
+	}
+	for pid, post := range s.Post.Users {
+		if _, known := c.lockedUntil[pid]; !known {
+			// created by this step (registration, first OAuth2 login)
+			c.lockedUntil[pid], c.confirmed[pid] = post.Locked, post.Confirmed
+			continue
+		}
+		if post.Locked.After(c.lockedUntil[pid]) {
+			c.lockedUntil[pid] = post.Locked
+		}
+		if !post.Confirmed {
+			c.confirmed[pid] = false
+		}
+	}
+}
+
+// view returns the user as the model sees it: locked until the later of the
+// stored and the modelled deadline, confirmed only if the model agrees.
+func (c *monC03) view(pid string, u harness.User) harness.User {
+	if t, ok := c.lockedUntil[pid]; ok && t.After(u.Locked) {
+		u.Locked = t
+	}
+	if ok, known := c.confirmed[pid]; known && !ok {
+		u.Confirmed = false
+	}
+	return u
+}
 
 // lockedAt: was the stored user locked throughout [t0,t1]? (definitely, inconclusive)
 func lockedAt(u harness.User, t0, t1 time.Time) (locked bool, inconclusive bool) {
@@ -28,6 +95,7 @@ func lockedAt(u harness.User, t0, t1 time.Time) (locked bool, inconclusive bool)
 var loginFlows = map[string]string{"login": "password", "otplogin": "otp", "o2cb": "oauth2", "recend": "recover-login", "totpvalidate": "2fa-validate", "smsvalidate": "2fa-validate"}
 
 func (c *monC03) After(m *Machine, s *Step) *Violation {
+	defer c.track(m, s)
 	if s.Resp == nil {
 		return nil
 	}
@@ -36,6 +104,7 @@ func (c *monC03) After(m *Machine, s *Step) *Violation {
 	// (ii) the lock / confirm middlewares
 	if r.Rec.ProbeRan && (r.Rec.ProbeName == "lock" || r.Rec.ProbeName == "confirm") {
 		u, ok := s.Pre.Users[r.Rec.ProbeUID]
+		u = c.view(r.Rec.ProbeUID, u)
 		if ok && r.Rec.ProbeName == "lock" {
 			if l, inc := lockedAt(u, r.T0, r.T1); inc {
 				st("C03").add("inconclusive", 1)
@@ -58,6 +127,7 @@ func (c *monC03) After(m *Machine, s *Step) *Violation {
 	}
 	// a correct credential presented for a locked / unconfirmed account (non-triviality)
 	if target, ok := s.Pre.Users[s.Pid]; ok && (op.K == "login" || op.K == "otplogin") {
+		target = c.view(s.Pid, target)
 		good := (op.K == "login" && bcryptOK(target.Password, s.Secret)) || (op.K == "otplogin" && otpInList(target.OTPs, s.Secret))
 		if good && cfg.Has("lock") && target.Locked.After(r.T1.UTC()) {
 			m.flag("correct-credential-while-locked")
@@ -77,6 +147,12 @@ func (c *monC03) After(m *Machine, s *Step) *Violation {
 	u, ok := s.Pre.Users[after]
 	if !ok {
 		return nil // created by this request (first OAuth2 login): nothing stored to be locked
+	}
+	if stored := u; true {
+		u = c.view(after, u)
+		if !u.Locked.Equal(stored.Locked) {
+			m.flag("model-lock-outlives-stored-lock")
+		}
 	}
 	if cfg.Has("lock") {
 		if l, inc := lockedAt(u, r.T0, r.T1); inc {
